@@ -600,9 +600,32 @@ def run_job(job):
     res["truncated"] = st.truncated
     res["unmodelled"] = h.unmodelled
     res["both_raise"] = h.both_raise
+    gap = False
     for r in results:
         if r.status == "cex":
-            res["findings"].append(_confirm(h, eng, r))
+            fnd = _confirm(h, eng, r)
+            res["findings"].append(fnd)
+            if fnd["status"] == "model_divergence":
+                gap = True
+    if gap and not any(f["status"] == "confirmed" for f in res["findings"]):
+        # A model could not follow the code on this program (e.g. an API outside the shim).  Do not give up: explore the structural
+        # paths that the other side / reference still distinguishes and compare the REAL engines on each path's solver witness.
+        eng2 = forksym.Engine(query_timeout_ms=ekw["query_timeout_ms"], max_paths=min(300, ekw["max_paths"]), wall_budget_s=min(60, ekw["wall_budget_s"] or 60),
+                              stop_at_first_cex=True, max_cex=80)
+        eng2.nice_model = nice
+        tried = 0
+        for r in eng2.explore(h.run):
+            if r.status != "cex":
+                continue
+            tried += 1
+            fnd = _confirm(h, eng2, r)
+            if fnd["status"] == "confirmed":
+                res["findings"].append(fnd)
+                break
+        res["notes"].append(f"model gap: {tried} solver witnesses replayed on the real engines")
+    for r in results:
+        if r.status == "cex":
+            pass
         elif r.status == "error":
             res["notes"].append("harness exception: " + r.why[-400:])
         elif r.status == "known":
@@ -638,6 +661,8 @@ def _concrete_disagreement(h, model, info, reals):
     j = h.job
     if j.get("compare") or j.get("check_cols"):
         return False
+    if any(getattr(s, "dialect", "sqlite") != "sqlite" for s in (h.A, h.B)):
+        return False  # a stand-in engine is not the dialect's engine: only model-predicted disagreements that reproduce are reported
     tabs = []
     for side, sr in ((h.A, info["a"]), (h.B, info["b"])):
         if getattr(side, "is_reference", False):
